@@ -68,7 +68,7 @@ def run(tier, seed):
     inp, out = os.path.join(d, "cases.ndjson"), os.path.join(d, "out.ndjson")
     nv.write_ndjson(inp, rows)
     nv.harness("nv-units", ["eval", "--cases", inp, "--out", out])
-    results = nv.read_ndjson_text(open(out).read())
+    results = nv.read_ndjson_text(open(out, encoding="utf-8").read())
     events, origin = [], []
     for (c, m), r in zip(meta, results):
         o = r["results"]
